@@ -5,7 +5,8 @@
 (* transaction in tx-id order with its write set and the reads it made     *)
 (* (other than of its own writes): point reads with the tx id of the       *)
 (* version returned (0 = not found) and full scans of an index with the    *)
-(* <<key, tx id>> list returned and the keys the tx itself had written.    *)
+(* <<key, tx id>> list returned and the keys the tx itself had written,    *)
+(* and range fingerprints (MarkPrefixScanned).                             *)
 (* A read is valid iff it equals the same read evaluated on the state      *)
 (* produced by all transactions with smaller ids.                          *)
 (***************************************************************************)
@@ -26,7 +27,10 @@ RECURSIVE ScanNow(_, _)
 ScanNow(ks, own) == IF ks = <<>> THEN <<>>
                     ELSE (IF Head(ks) \in own \/ last[Head(ks)] = 0 THEN <<>> ELSE <<<<Head(ks), last[Head(ks)]>>>>) \o ScanNow(Tail(ks), own)
 ToSet(s) == {s[q] : q \in 1..Len(s)}
+\* "fp": a range fingerprint (OngoingTx.MarkPrefixScanned) taken on a snapshot not newer than tx r.hi: the transaction may commit
+\* only if the range is still what that snapshot showed, hence at least: nothing of the range was written after r.hi
 ReadOk(r) == IF r.kind = "get" THEN last[r.k] = r.e
+             ELSE IF r.kind = "fp" THEN \A q \in 1..Len(KeysOf(r.x)) : last[KeysOf(r.x)[q]] <= r.hi
              ELSE ScanNow(KeysOf(r.x), ToSet(r.own)) = r.es
 
 Reset == /\ l <= Len(TraceLog) /\ Ev.ev = "Reset"
